@@ -28,7 +28,9 @@ func (e *Engine) intrinsic(fr *Frame, st *State, name string, fn *ssa.Function, 
 		e.noOblig++
 		qs := st.clone()
 		qs.pc = tTrue // the quantified formula is used under the caller's path condition
+		e.boundVars = append(e.boundVars, bv)
 		body := e.callStatic(fr, qs, fv.fn, fv.binds, []Val{bv}, pos)
+		e.boundVars = e.boundVars[:len(e.boundVars)-1]
 		e.noOblig--
 		e.inlineTerms--
 		bt := body.(T)
@@ -260,6 +262,9 @@ func (e *Engine) appendModel(fr *Frame, st *State, s T, tv Val, sT, tT types.Typ
 	}
 	n1 := T{app("slen", s), sInt}
 	n2 := T{app("slen", t), sInt}
+	if known >= 0 {
+		n2 = tInt(int64(known))
+	}
 	total := e.name(T{fmt.Sprintf("(+ %s %s)", n1.S, n2.S), sInt}, "n")
 	inplace := e.name(T{fmt.Sprintf("(and (<= %s (scap %s)) (not (= (sbase %s) nil)))", total.S, s.S, s.S), sBool}, "inplace")
 	nb := e.newObject(st, "grow")
@@ -269,7 +274,12 @@ func (e *Engine) appendModel(fr *Frame, st *State, s T, tv Val, sT, tT types.Typ
 	rbase := tIte(inplace, T{app("sbase", s), sRef}, nb)
 	roff := tIte(inplace, T{app("soff", s), sInt}, tInt(0))
 	rcap := tIte(inplace, T{app("scap", s), sInt}, ncap)
-	res := e.name(T{fmt.Sprintf("(ite (= %s 0) %s (mk_slice %s %s %s %s))", n2.S, s.S, rbase.S, roff.S, total.S, rcap.S), sSlice}, "app")
+	var res T
+	if known == 1 {
+		res = e.name(T{fmt.Sprintf("(mk_slice %s %s %s %s)", rbase.S, roff.S, total.S, rcap.S), sSlice}, "app")
+	} else {
+		res = e.name(T{fmt.Sprintf("(ite (= %s 0) %s (mk_slice %s %s %s %s))", n2.S, s.S, rbase.S, roff.S, total.S, rcap.S), sSlice}, "app")
+	}
 	if _, isS := isStruct(et); isS && !e.isIntrinsicStruct(et) {
 		e.appendStructElems(st, s, t, et, inplace, nb)
 		return res
@@ -293,6 +303,9 @@ func (e *Engine) appendModel(fr *Frame, st *State, s T, tv Val, sT, tT types.Typ
 		nh := e.heap(st, hn, hs)
 		e.assume(st, T{fmt.Sprintf("(forall ((k Int)) (! (=> (and (<= %s k) (< k (+ %s %s))) (= (select (select %s (sbase %s)) (+ (soff %s) (- k %s))) (select (select %s %s) k))) :pattern ((select (select %s %s) k))))",
 			so.S, so.S, n1.S, nh.S, res.S, res.S, so.S, h.S, sb.S, h.S, sb.S), sBool})
+		// backward trigger: an element of the result below the old length is the old element
+		e.assume(st, T{fmt.Sprintf("(forall ((k Int)) (! (=> (and (<= (soff %s) k) (< k (+ (soff %s) %s))) (= (select (select %s (sbase %s)) k) (select (select %s %s) (+ %s (- k (soff %s)))))) :pattern ((select (select %s (sbase %s)) k))))",
+			res.S, res.S, n1.S, nh.S, res.S, h.S, sb.S, so.S, res.S, nh.S, res.S), sBool})
 		return res
 	}
 	// new backing array contents
@@ -886,7 +899,9 @@ func (e *Engine) quantInt(st *State, q string, body func(s *State, i T) T) T {
 	e.noOblig++
 	qs := st.clone()
 	qs.pc = tTrue
+	e.boundVars = append(e.boundVars, bv)
 	b := body(qs, bv)
+	e.boundVars = e.boundVars[:len(e.boundVars)-1]
 	e.noOblig--
 	e.inlineTerms--
 	res := fmt.Sprintf("(%s ((%s Int)) %s)", q, bv.S, b.S)
